@@ -8,6 +8,7 @@
   Exactness for block / folded / multi-line scalars is validated by the readback search only.
 -/
 import PintModel.Model.Position
+import PintModel.Model.Inject
 set_option linter.unusedSimpArgs false
 namespace Pint.Props.C06
 open Pint.Position
@@ -260,5 +261,122 @@ theorem npr_lines_in_file (lines : List (List Nat)) (value : List Nat) (vLine vC
 theorem scan_can_find_nothing :
     nprLoop [117, 112] 11 ([[101, 120, 112, 114, 58, 32, 34, 92, 120, 55, 53, 34]].drop 0) 1 0 7 0 [] = [] := by
   decide
+
+/-! ### the caret row of `InjectDiagnostics` (Model/Inject): `^` stands under exactly the selected cells -/
+section carets
+open Pint.Inject
+
+/-- a column of line `l` is inside a selected position iff it is one of the selected cells -/
+theorem insideAt_iff_cell (dps : List PR) (l c : Nat) : insideAt dps l c = true ↔ (l, c) ∈ cells dps := by
+  simp only [insideAt, List.any_eq_true, Bool.and_eq_true, beq_iff_eq, decide_eq_true_eq, cells, List.mem_flatMap,
+    List.mem_map, List.mem_range, Prod.mk.injEq]
+  constructor
+  · rintro ⟨p, hp, ⟨hl, h1⟩, h2⟩
+    exact ⟨p, hp, c - p.first, by omega, hl, by omega⟩
+  · rintro ⟨p, hp, k, hk, hl, hc⟩
+    exact ⟨p, hp, ⟨hl, by omega⟩, by omega⟩
+
+/-- the last selected column on line `l` (0 when the line has no position) -/
+def lastCol : List PR → Nat → Nat
+  | [], _ => 0
+  | p :: ps, l => if p.line = l then max p.last (lastCol ps l) else lastCol ps l
+
+theorem le_lastCol {dps : List PR} {l : Nat} {p : PR} (hp : p ∈ dps) (hl : p.line = l) : p.last ≤ lastCol dps l := by
+  induction dps with
+  | nil => simp at hp
+  | cons q qs ih =>
+    simp only [lastCol]
+    rcases List.mem_cons.mp hp with rfl | h
+    · simp only [hl, if_true]; omega
+    · have := ih h
+      split <;> omega
+
+theorem lastCol_attained {dps : List PR} {l : Nat} (h : 0 < lastCol dps l) : ∃ p ∈ dps, p.line = l ∧ p.last = lastCol dps l := by
+  induction dps with
+  | nil => simp [lastCol] at h
+  | cons q qs ih =>
+    simp only [lastCol] at h ⊢
+    by_cases hq : q.line = l
+    · simp only [hq, if_true] at h ⊢
+      by_cases hm : lastCol qs l ≤ q.last
+      · exact ⟨q, by simp, hq, by omega⟩
+      · obtain ⟨p, hp, hl, he⟩ := ih (by omega)
+        exact ⟨p, by simp [hp], hl, by omega⟩
+    · simp only [hq, if_false] at h ⊢
+      obtain ⟨p, hp, hl, he⟩ := ih h
+      exact ⟨p, by simp [hp], hl, he⟩
+
+/-- something is written under a column iff the column is not after the last selected one -/
+theorem written_iff (dps : List PR) (hw : WF dps) (l c : Nat) (hc : 1 ≤ c) :
+    (insideAt dps l c || beforeAt dps l c) = true ↔ c ≤ lastCol dps l := by
+  simp only [Bool.or_eq_true, insideAt, beforeAt, List.any_eq_true, Bool.and_eq_true, beq_iff_eq, decide_eq_true_eq]
+  constructor
+  · rintro (⟨p, hp, ⟨hl, _⟩, h2⟩ | ⟨p, hp, hl, h2⟩)
+    · have := le_lastCol hp hl; omega
+    · have := le_lastCol hp hl; have := hw p hp; omega
+  · intro h
+    obtain ⟨p, hp, hl, he⟩ := lastCol_attained (dps := dps) (l := l) (by omega)
+    by_cases hf : p.first ≤ c
+    · exact Or.inl ⟨p, hp, ⟨hl, hf⟩, by omega⟩
+    · exact Or.inr ⟨p, hp, hl, by omega⟩
+
+theorem filterMap_range_prefix {β : Type} (f : Nat → Option β) (g : Nat → β) (m : Nat)
+    (h1 : ∀ o, o < m → f o = some (g o)) (h2 : ∀ o, m ≤ o → f o = none) :
+    ∀ len, (List.range len).filterMap f = (List.range (min len m)).map g := by
+  intro len
+  induction len with
+  | zero => simp
+  | succ n ih =>
+    rw [List.range_succ, List.filterMap_append, ih]
+    by_cases hn : n < m
+    · have : min (n + 1) m = min n m + 1 := by omega
+      rw [this, List.range_succ, List.map_append]
+      have hmin : min n m = n := by omega
+      simp [h1 n hn, hmin]
+    · have : min (n + 1) m = min n m := by omega
+      rw [this]
+      simp [h2 n (by omega)]
+
+/-- **C06, rendering**: on a line of `len` one-byte characters the row written under it is, up to the last selected
+column, a `^` under every selected cell and a blank under every other column - nothing else, and nothing after -/
+theorem caretRow_ascii (dps : List PR) (hw : WF dps) (l len : Nat) :
+    caretRow dps false l (List.range len) =
+      (List.range (min len (lastCol dps l))).map fun k => if (l, k + 1) ∈ cells dps then '^' else ' ' := by
+  unfold caretRow
+  apply filterMap_range_prefix
+  · intro o ho
+    have hwr := (written_iff dps hw l (o + 1) (by omega)).mpr (by omega)
+    by_cases hin : insideAt dps l (o + 1) = true
+    · have := (insideAt_iff_cell dps l (o + 1)).mp hin
+      simp [hin, this]
+    · have hnc : (l, o + 1) ∉ cells dps := fun h => hin ((insideAt_iff_cell dps l (o + 1)).mpr h)
+      simp only [Bool.not_eq_true] at hin
+      simp only [hin, Bool.false_or] at hwr
+      simp [hin, hwr, hnc]
+  · intro o ho
+    have hnw : ¬ ((insideAt dps l (o + 1) || beforeAt dps l (o + 1)) = true) :=
+      fun h => by have := (written_iff dps hw l (o + 1) (by omega)).mp h; omega
+    simp only [Bool.or_eq_true, not_or, Bool.not_eq_true] at hnw
+    simp [hnw.1, hnw.2]
+
+/-- with the points disabled (a second diagnostic on the same columns) the row holds blanks only -/
+theorem caretRow_disabled (dps : List PR) (l : Nat) (offs : List Nat) : ∀ c ∈ caretRow dps true l offs, c = ' ' := by
+  intro c hc
+  simp only [caretRow, List.mem_filterMap] at hc
+  obtain ⟨o, _, ho⟩ := hc
+  simp only [Bool.not_true, Bool.and_false, Bool.false_eq_true, if_false] at ho
+  split at ho
+  · simpa using ho.symm
+  · cases ho
+
+/-- the carets of a diagnostic's column range [a, b] of a value: under line `l`, a `^` stands under column `c` iff
+`(l, c)` is one of the cells a..b of the value's positions (and by `readRange_exact` those cells spell value[a..b]) -/
+theorem carets_under_selected_columns (prs : List PR) (a b l c : Nat) :
+    insideAt (readRange a b prs) l c = true ↔ (l, c) ∈ ((cells prs).drop (a - 1)).take (b - (a - 1)) := by
+  rw [insideAt_iff_cell, readRange_cells]
+
+example : caretRow [⟨1, 3, 5⟩, ⟨1, 8, 8⟩] false 1 (List.range 10) = "  ^^^  ^".toList := by decide
+
+end carets
 
 end Pint.Props.C06
